@@ -13,7 +13,7 @@ from ..common import hx, key_family, pick, run_cases, sk, unhx
 
 ID = "C06"
 LEVEL = "exploration"
-TECHNIQUE = "placed-draw decision monitor over every counter value (draw set just below / just above base^-(c-num_reserved) through the documented rand_nums/rand_ptr attributes), exact-Markov-chain goodness-of-fit monitor of the estimate's law, reserved-range exactness and lower-bound invariants, and a refill monitor on successive draw batches"
+TECHNIQUE = "placed-draw decision monitor over every counter value (draw set just below / just above base^-(c-num_reserved) through the documented rand_nums/rand_ptr attributes), exact-Markov-chain goodness-of-fit monitor of the estimate's law, reserved-range exactness and lower-bound invariants, and a refill monitor on successive draw batches; thread stress with long kernel calls (exactness in the reserved range for a key added by one thread while others query the same 32-row sketch)"
 RULE = ("cases: (a) reserved range - configuration x way of reaching every total 0..num_reserved+1; (b) placed draws - configuration x "
         "counter value x side of the decision boundary; (c) law - configuration x total N x T trials compared with the exact chain "
         "(chi-square at 1e-10, mean at |z| <= 7); (d) lower bound - random histories with merges; (e) refills - R successive batches. "
@@ -422,6 +422,11 @@ def gen_cases(ctx):
     q = ctx.quick
     sh, ns = ctx.shard, ctx.nshards
     cases = []
+    # exactness inside the reserved range while other threads are inside long kernel calls on the same / on other sketches (round 8, C06-N)
+    for kind in ("log16", "log8"):
+        for rep in range(1 if q else 3):
+            cases.append({"type": "adder_vs_readers", "kind": kind, "adds": 25000, "readers": 3, "seed": 4000 + rep + 17 * sh})
+            cases.append({"type": "threads_own", "kind": kind, "threads": 6, "seed": 5000 + rep + 17 * sh})
     for kind in ("log8", "log16"):
         for mc, nr in GRID[kind]:
             cases.append({"type": "reserved", "kind": kind, "max_count": mc, "num_reserved": nr, "key": hx(key_family(rng, 1, 1, 8, alias=False)[0]),
@@ -481,8 +486,14 @@ def gen_cases(ctx):
         yield {"type": "law", "kind": kind, "max_count": mc, "num_reserved": nr, "N": int(rng.integers(nr + 2, 5000)), "T": 100000, "rep": int(rng.integers(0, 2**31))}
 
 
+def run_threads_case(case, ctx, mon):
+    from .. import thread_common
+
+    (thread_common.run_own_sketches if case["type"] == "threads_own" else thread_common.run_adder_vs_readers)(case, mon)
+
+
 def run_case(case, ctx, mon):
-    {"reserved": run_reserved, "placed": run_placed, "law": run_law, "lower": run_lower, "refill": run_refill, "fork": run_fork}[case["type"]](case, ctx, mon)
+    {"threads_own": run_threads_case, "adder_vs_readers": run_threads_case, "reserved": run_reserved, "placed": run_placed, "law": run_law, "lower": run_lower, "refill": run_refill, "fork": run_fork}[case["type"]](case, ctx, mon)
 
 
 def run(ctx, mon):
